@@ -112,9 +112,17 @@ def run_case(spec):
             if len(set(map(repr, got))) != len(got) or not set(map(repr, got)) <= set(map(repr, expected)):
                 raise Violation("%s: unordered generator yielded a result twice or a foreign one: %r" % (where, got[:30]),
                                 signature=["exactly-once"])
-            if f["probes"] == 0:
-                comp = sorted((j for j in jobs if j["completed_seq"] is not None), key=lambda j: j["completed_seq"])
-                want = [Engine.expected_value(i, i - base) for j in comp for i in j["indices"]]
+            # results become available when the completion callback registers them: judge the order only when the
+            # callbacks of this call ran strictly one after the other (no overlap, nothing held at a gate in between)
+            cbs = {}
+            for e in evs:
+                if e["kind"] in ("cb_enter", "cb_return") and "jid" in e:
+                    cbs.setdefault(e["jid"], {})[e["kind"]] = e["seq"]
+            spans = sorted((v["cb_enter"], v.get("cb_return", 10 ** 9), jid) for jid, v in cbs.items() if "cb_enter" in v)
+            sequential = all(a[1] < b[0] for a, b in zip(spans, spans[1:])) and not any(e["kind"] in ("gate_hit", "gate_parked") for e in evs)
+            if sequential:
+                by_jid = {j["jid"]: j for j in jobs}
+                want = [Engine.expected_value(i, i - base) for _, _, jid in spans if jid in by_jid for i in by_jid[jid]["indices"]]
                 if got != want[:len(got)]:
                     raise Violation("%s: unordered generator yielded %r, completion order gives %r" % (where, got[:30], want[:len(got)][:30]),
                                     signature=["completion-order"])
